@@ -108,15 +108,19 @@ func (e *ErrHook) Unwrap() error { return e.Cause }
 
 // H is the per-process hook state (engines using it run operations sequentially).
 var H struct {
-	Log     []HookEvent
-	Count   int
-	FailAt  int   // 1-based invocation to fail, 0 = none
-	Cause   error // wrapped by the failing hook's error (nil = plain sentinel)
-	Audit   bool  // write an audit row through tx in every Before*/After* write hook
-	SetCols bool  // before-hooks set Stamp (direct) and Stamp2 (SetColumn)
-	Enabled bool
-	CtxKey  interface{}
-	MarkFn  func() int
+	Log    []HookEvent
+	Count  int
+	FailAt int   // 1-based invocation to fail, 0 = none
+	Cause  error // wrapped by the failing hook's error (nil = plain sentinel)
+	// AfterProbe: after-hooks of the parent model address "the current record" of the statement
+	// (SetColumn after a create, Changed after an update), as hooks that audit changes do; per-record
+	// dispatch must make that work in the after phase too
+	AfterProbe bool
+	Audit      bool // write an audit row through tx in every Before*/After* write hook
+	SetCols    bool // before-hooks set Stamp (direct) and Stamp2 (SetColumn)
+	Enabled    bool
+	CtxKey     interface{}
+	MarkFn     func() int
 }
 
 func ResetHooks() {
@@ -165,6 +169,10 @@ func (u *User) BeforeCreate(tx *gorm.DB) error {
 	return hook("BeforeCreate", "User", u, u.Name, tx, true)
 }
 func (u *User) AfterCreate(tx *gorm.DB) error {
+	if H.Enabled && H.AfterProbe {
+		// in memory only (the row is written already): addresses "the current record" of the statement
+		tx.Statement.SetColumn("Stamp2", "ac:"+u.Name)
+	}
 	return hook("AfterCreate", "User", u, u.Name, tx, true)
 }
 func (u *User) BeforeUpdate(tx *gorm.DB) error {
@@ -174,6 +182,9 @@ func (u *User) BeforeUpdate(tx *gorm.DB) error {
 	return hook("BeforeUpdate", "User", u, u.Name, tx, true)
 }
 func (u *User) AfterUpdate(tx *gorm.DB) error {
+	if H.Enabled && H.AfterProbe {
+		tx.Statement.Changed("Name")
+	}
 	return hook("AfterUpdate", "User", u, u.Name, tx, true)
 }
 func (u *User) AfterSave(tx *gorm.DB) error { return hook("AfterSave", "User", u, u.Name, tx, true) }
